@@ -1545,10 +1545,41 @@ func (m *Machine) isErrorOnly(f *types.Func) bool {
 					ok = false
 					return true
 				}
-				u, isU := ast.Unparen(r.Results[0]).(*ast.UnaryExpr)
-				if !isU || u.Op != token.AND {
-					ok = false
-				} else if _, isCL := u.X.(*ast.CompositeLit); !isCL {
+				res := ast.Unparen(r.Results[0])
+				// a local that was bound once to a fresh object and then only filled field by field
+				if id, isID := res.(*ast.Ident); isID {
+					obj := m.Prog.PkgOfDecl(fd).TypesInfo.ObjectOf(id)
+					var def ast.Expr
+					assigns := 0
+					ast.Inspect(fd.Body, func(y ast.Node) bool {
+						if as, isAs := y.(*ast.AssignStmt); isAs {
+							for i, l := range as.Lhs {
+								if lid, isL := l.(*ast.Ident); isL && m.Prog.PkgOfDecl(fd).TypesInfo.ObjectOf(lid) == obj {
+									assigns++
+									if len(as.Lhs) == len(as.Rhs) {
+										def = as.Rhs[i]
+									}
+								}
+							}
+						}
+						return true
+					})
+					if assigns == 1 && def != nil {
+						res = ast.Unparen(def)
+					}
+				}
+				fresh := false
+				switch v := res.(type) {
+				case *ast.UnaryExpr:
+					if v.Op == token.AND {
+						_, fresh = v.X.(*ast.CompositeLit)
+					}
+				case *ast.CallExpr:
+					if fid, isF := v.Fun.(*ast.Ident); isF && fid.Name == "new" {
+						fresh = true
+					}
+				}
+				if !fresh {
 					ok = false
 				}
 			}
